@@ -3,7 +3,7 @@
 From Coq Require Import NArith ZArith List.
 From Coq.Strings Require Import Byte.
 From PyRtcm Require Import Base.Bytes Model.Types Model.Crc Model.Message Model.Reader Spec.StreamLaw Spec.Frame
-  Proofs.DecodeWalk Proofs.ReaderProofs.
+  Spec.TotalWf Proofs.DecodeWalk Proofs.DecodeTotal Proofs.ReaderProofs.
 Import ListNotations. Open Scope nat_scope.
 
 (* the constructor never lets a foreign exception (IndexError, KeyError, ValueError, TypeError, AttributeError, ...) escape:
@@ -12,6 +12,14 @@ Theorem C04_construct_no_foreign : forall T p lbl, match construct T p lbl with 
 Proof. exact construct_no_foreign. Qed.
 Goal True. idtac "PA:C04_construct_no_foreign". Abort.
 Print Assumptions C04_construct_no_foreign.
+
+(* under the decidable table condition tables_total_ok (a per-run table theorem on the regenerated tables) the model has no
+   gap left: the constructor returns a message or one of the library's errors -- for every payload and option *)
+Theorem C04_construct_total : forall T, tables_total_ok T = true -> forall p lbl,
+  match construct T p lbl with Ok _ | Lib _ => True | _ => False end.
+Proof. exact construct_total. Qed.
+Goal True. idtac "PA:C04_construct_total". Abort.
+Print Assumptions C04_construct_total.
 
 (* payloads too short to carry an identity are rejected with the library's message error *)
 Theorem C04_construct_short : forall T p lbl, too_short p = true -> construct T (Some p) lbl = Lib EMessage.
